@@ -170,6 +170,11 @@ def run_case(case):
                     if label.startswith("_") and fw in ("pydantic", "sqlmodel") and not hits:
                         W("leading-underscore-label", f"class {info.qualname}: key {key!r} gets label {label!r}; pydantic ignores underscore attributes, the field is lost", key=key)
                         continue
+                    if label.startswith("_") and sum(1 for k2 in m.type if a.gens[ix].convert_field_name(k2) == label) > 1:
+                        # the same listed finding: keys whose label starts with an underscore (a stripped leading '-', '#', ' ' before '_', or a
+                        # leading 0, which is spelled as an empty word plus '_') - here two of them share the label
+                        W("leading-underscore-label", f"class {info.qualname}: key {key!r} gets label {label!r}, which another key of the object gets as well", key=key)
+                        continue
                     W("key-not-recoverable", f"class {info.qualname}: key {key!r} is attached to {len(hits)} fields (originals found: {others!r:.200})", key=key)
                     continue
                 f = hits[0]
